@@ -81,6 +81,35 @@ PROPS = {
                    'functorial lemmas (assumed).',
         technique='symbolic execution of the real translation + exact ZX interpretation + proportionality identities '
                   'discharged by z3'),
+    'C14': dict(
+        title='Substituting parameters commutes with evaluation',
+        level='proof',
+        vc=[], sym=['C14'], rtc=None,
+        level_text='Proof (per box class, for all parameter values): subs / lambdify of every parametrised box class '
+                   '(rotations, controlled rotations, pure and mixed scalars, classical gates and their daggers, ZX '
+                   'spiders and scalars, tensor boxes, Tensor, cat.Box with nested data) are run on symbolic parameters; '
+                   'structure preservation (kind, dom, cod, dagger flag, mixedness, name, offsets) is decided on the '
+                   'returned objects, array(subs(b)) == subs(array(b)) and lambdify == subs are polynomial identities '
+                   'discharged by z3 for all values, free symbols are exact and a fully substituted box evaluates to '
+                   'numbers. Whole diagrams: symbolic samples (pure, mixed, tensor, sums); the general statement is '
+                   'L-poly (evaluation is polynomial in box entries).',
+        level_note='Trusted: sympy normalisation and subs, z3; L-poly assumed. Skipped with reason: lambdify of '
+                   'array-valued data (ClassicalGate, Tensor) raises inside the installed sympy 1.14 (external).',
+        technique='symbolic execution of the real subs/lambdify code + polynomial identities discharged by z3'),
+    'C15': dict(
+        title='Diagrammatic gradients evaluate to the gradient of the evaluation',
+        level='proof',
+        vc=[], sym=['C15'], rtc=None,
+        level_text='Proof (per box rule, for an arbitrary differentiable phase f(x), the chain-rule factor f\'(x) a '
+                   'free symbol): Rx/Ry/Rz/CU1/CRz/CRx pure rule, Rx/Ry/Rz parameter-shift (mixed) rule through the real '
+                   'CQ-map functor, scalars, ZX spiders (symmetric phase convention) and scalars, tensor boxes, polynomial '
+                   'bubbles on one wire: eval(grad) - d/dx eval is normalised to polynomials and shown to vanish for all '
+                   'values by z3. Product rule, zero gradient, jacobian order and circuits with several symbols occurring '
+                   'several times are decided on symbolic samples; the general statement is L-leib.',
+        level_note='Trusted: sympy diff / normalisation, z3; L-leib assumed. ZX diagrams have no evaluation inside '
+                   'discopy: the spider rule is checked in the convention in which it is a derivative (DESIGN 6/C15). '
+                   'Known finding F10 (pure symbolic scalar under the default mixed gradient).',
+        technique='symbolic execution of the real grad code on f(x) + polynomial identities discharged by z3'),
     'C05': dict(
         title='Interchange moves exactly one box past a disconnected neighbour',
         level='proof',
